@@ -353,6 +353,113 @@ func c10Reuse(x *mc.Exec) {
 
 // c10Tree enumerates every and/or tree within (depth, fan-out) over two leaves
 // of known truth value and compares IsAllowed with the tree read as logic.
+// c10Large: beyond any small-input fast path: id lists of 15..100 entries in
+// sorted, reversed and scrambled order for 'in', 'has' and to-many '='; and/or
+// chains nested 1..40 deep above a true or a false leaf.
+func c10Large(x *mc.Exec) {
+	soft := x.Bool("soft")
+	impl := implName(soft)
+	d := TypeD{Name: "t", Attrs: []AttrD{{"a", kStr}}, Rels: []RelD{{"one", true, "t", ""}, {"many", false, "t", ""}}}
+	if x.Bool("deep tree") {
+		depths := []int{1, 2, 3, 7, 8, 9, 11, 12, 13, 14, 15, 16, 17, 31, 32, 33, 40}
+		n := depths[x.Choose(len(depths), "depth")]
+		leafTrue := x.Bool("leaf holds")
+		shape := x.Choose(3, "shape")
+		res := d.NewRes(soft)
+		res.Set("a", "x")
+		op := "="
+		if !leafTrue {
+			op = "!="
+		}
+		f := &j.Filter{Field: "a", Op: op, Val: "x"}
+		want := leafTrue
+		for i := 0; i < n; i++ {
+			var node string
+			switch shape {
+			case 0:
+				node = "and"
+			case 1:
+				node = "or"
+			default:
+				node = []string{"and", "or"}[i%2]
+			}
+			if node == "and" {
+				// the other branch holds: the verdict is the nested one's
+				f = &j.Filter{Op: "and", Val: []*j.Filter{{Field: "a", Op: "=", Val: "x"}, f}}
+			} else {
+				f = &j.Filter{Op: "or", Val: []*j.Filter{{Field: "a", Op: "!=", Val: "x"}, f}}
+			}
+		}
+		var got bool
+		p := Try(func() { got = f.IsAllowed(res) })
+		x.R.Add("transitions", 1)
+		x.R.Mark("nontrivial", mc.Hash("deep", n, leafTrue, shape, soft))
+		x.Render(fmt.Sprintf("%s: %d nested %s nodes above a leaf that is %v", impl, n, []string{"and", "or", "alternating"}[shape], leafTrue))
+		if p != "" || got != want {
+			x.Fail("C10:large:deep-tree", "%s: %d nested %s nodes above a leaf that is %v evaluate to %v (panic %q)", impl, n, []string{"and", "or", "alternating and/or"}[shape], leafTrue, got, p)
+		}
+		return
+	}
+	sizes := []int{15, 16, 17, 18, 31, 32, 33, 64, 65, 100}
+	n := sizes[x.Choose(len(sizes), "list size")]
+	order := x.Choose(3, "order")
+	ids := make([]string, n)
+	for i := range ids {
+		k := i
+		switch order {
+		case 1:
+			k = n - 1 - i
+		case 2:
+			k = (i*37 + 11) % n // n is never a multiple of 37: a permutation
+		}
+		ids[i] = fmt.Sprintf("id%03d", k)
+	}
+	x.Render(fmt.Sprintf("%s: lists of %d ids, order %d", impl, n, order))
+	clone := func() []string { return append([]string{}, ids...) }
+	probes := append(clone(), "id", "id999", "", "id0000")
+	for _, pr := range probes {
+		want := false
+		for _, id := range ids {
+			want = want || id == pr
+		}
+		res := d.NewRes(soft)
+		res.Set("one", pr)
+		res.Set("many", clone())
+		var in, has bool
+		p := Try(func() {
+			in = (&j.Filter{Field: "one", Op: "in", Val: clone()}).IsAllowed(res)
+			has = (&j.Filter{Field: "many", Op: "has", Val: pr}).IsAllowed(res)
+		})
+		x.R.Add("transitions", 2)
+		if p != "" || in != want {
+			x.Fail("C10:large:in", "%s: %q in a list of %d ids (order %d) = %v (panic %q), reference %v", impl, pr, n, order, in, p, want)
+		}
+		if p != "" || has != want {
+			x.Fail("C10:large:has", "%s: to-many of %d ids (order %d) has %q = %v (panic %q), reference %v", impl, n, order, pr, has, p, want)
+		}
+	}
+	// to-many '=' / '!=' against the same set in another order, and against a set differing in one id
+	res := d.NewRes(soft)
+	res.Set("many", clone())
+	rev := clone()
+	for i, k := 0, len(rev)-1; i < k; i, k = i+1, k-1 {
+		rev[i], rev[k] = rev[k], rev[i]
+	}
+	other := clone()
+	other[n/2] = "zzz"
+	var eq, ne, eqOther bool
+	p := Try(func() {
+		eq = (&j.Filter{Field: "many", Op: "=", Val: rev}).IsAllowed(res)
+		ne = (&j.Filter{Field: "many", Op: "!=", Val: append([]string{}, rev...)}).IsAllowed(res)
+		eqOther = (&j.Filter{Field: "many", Op: "=", Val: other}).IsAllowed(res)
+	})
+	x.R.Add("transitions", 3)
+	x.R.Mark("nontrivial", mc.Hash("lists", n, order, soft))
+	if p != "" || !eq || ne || eqOther {
+		x.Fail("C10:large:to-many-eq", "%s: to-many of %d ids (order %d): = same set %v, != same set %v, = set differing in one id %v (panic %q)", impl, n, order, eq, ne, eqOther, p)
+	}
+}
+
 func c10Tree(x *mc.Exec) {
 	depth, fan := 2, 2
 	if Thorough() {
@@ -419,7 +526,7 @@ func c10Tree(x *mc.Exec) {
 func init() {
 	Register(&Prop{
 		ID: "C10",
-		Rule: "Engine A, all choices Full: (28 kinds x {soft,wrapped} x 8 operators x all ordered pairs of the kind's boundary alphabet incl. nil) + relationship leaves (to-one =,!=,in; to-many =,!=,has,order ops over 10 lists incl. nil on either side) + every and/or tree of depth<=2 and fan-out<=2 (thorough: fan-out<=3) over a true and a false leaf; " +
+		Rule: "Engine A, all choices Full: (28 kinds x {soft,wrapped} x 8 operators x all ordered pairs of the kind's boundary alphabet incl. nil) + relationship leaves (to-one =,!=,in; to-many =,!=,has,order ops over 10 lists incl. nil on either side) + every and/or tree of depth<=2 and fan-out<=2 (thorough: fan-out<=3) over a true and a false leaf + id lists of 15..100 entries (sorted, reversed, scrambled) for in / has / to-many = and != + and/or chains nested 1..40 deep above a true or a false leaf; " +
 			"+ one Filter value reused over 3 steps with its value reassigned or edited in place (all sequences over 7 ID lists), compared with fresh filters; oracle = independent evaluator (math/big, bytes.Compare, time.Before) plus trichotomy/complement/<= laws; a leaf case is non-trivial when the two values differ or one is nil, a tree when it has at least one operator node",
 		Assumptions: []string{"well-typed filters only: the filter value has the Go type of the attribute (pointer, possibly typed nil, for nullable kinds)", "ordering of to-one IDs is not judged (statement silent)"},
 		Harnesses: []Harness{
@@ -427,6 +534,7 @@ func init() {
 			{Name: "C10/rel", Body: c10Rel},
 			{Name: "C10/tree", Body: c10Tree},
 			{Name: "C10/reuse", Body: c10Reuse},
+			{Name: "C10/large", Body: c10Large},
 		},
 	})
 }
